@@ -150,6 +150,9 @@ pub enum Pred {
     McrAfter(u32),
     /// keep running; at the n-th tripwire evaluation insert this breakpoint from inside the closure
     BpAfter(u32, BpS),
+    /// keep running; at the n-th tripwire evaluation the host drains the access observer
+    /// (`take_mem_accesses`) from inside the closure
+    DrainAfter(u32),
 }
 
 #[derive(Clone, Debug, Serialize, Deserialize, PartialEq)]
@@ -452,6 +455,13 @@ pub fn exec_op(w: &mut World, op: &Op) -> OpRes {
                     evals += 1;
                     if evals > n {
                         s.mcr().store(false, std::sync::atomic::Ordering::Relaxed);
+                    }
+                    true
+                }),
+                Pred::DrainAfter(n) => w.sim.run_while(|s| {
+                    evals += 1;
+                    if evals == n {
+                        let _ = s.observer.take_mem_accesses().count();
                     }
                     true
                 }),
